@@ -8,7 +8,7 @@ from vlib import core, dom, rescorr
 
 ID = "C03"
 GEN = []
-PROPS = ["C03_massbalance.v"]
+PROPS = ["C03_massbalance.v", "C03_recovery_monotone.v"]
 
 
 def run(ctx):
